@@ -42,6 +42,9 @@ TIE_HUB = TIE_HUB + [(f"TieHubDcs.{n}", "Relay.Tie.HubDcs") for n in
                      ["e2e_dinv", "e2e_dcs_content", "e2e_dcs_matches_filed", "e2e_filed_recorded", "e2e_dcs_model", "e2e_parentByChild_content",
                       "e2e_parentByChild_matches", "e2e_parentByChild_none", "e2e_deny_closes_exactly_the_bookings_connections", "e2e_deny_reaches",
                       "e2e_deny_only_live", "e2e_idle_store_empty"]]
+TIE_HUB = TIE_HUB + [(f"TieHubRefine.{n}", "Relay.Tie.HubRefine") for n in
+                     ["refine_step", "refine_run", "refine_run_witness", "refine_sent", "translated_isolation_no_echo", "translated_queue_is_suffix_of_wanted",
+                      "translated_queue_exact", "translated_names_unique", "translated_member_queue"]]
 TIE_HUB_NOTE = ("HUB TRANSLATION: the three cases of Hub.run's select and Hub.remove (internal/crossbar) are translated to Lean on every run "
                 "(Relay/Extracted/GenCrossbar.lean) and proved, for every map iteration order and every choice of which send queues are full, to send a "
                 "message exactly once to exactly the other members filed under the sender's topic that have room, to drop exactly the ones that have not "
@@ -53,7 +56,10 @@ TIE_HUB_NOTE = ("HUB TRANSLATION: the three cases of Hub.run's select and Hub.re
                 "twice by one broadcast. CANCEL BOOKKEEPING (Relay/Tie/HubDcs.lean): over every such history (clients named uniquely, each with a real `denied` channel, "
                 "an unregister never concerns a look-alike of another client's name) the translated cancel-channel store inside the hub holds exactly the filed "
                 "clients that have a booking id, each with its own `denied` channel; `DeleteAndCloseParent b` — what a deny runs — closes exactly the `denied` "
-                "channels of the connections currently joined under booking b, each once; when everybody has left the store is empty again. ")
+                "channels of the connections currently joined under booking b, each once; when everybody has left the store is empty again. WHOLE-HISTORY REFINEMENT "
+                "(Relay/Tie/HubRefine.lean): every such history of the translated system in which frames come from joined writers is, event for event, a history of "
+                "the hand-written hub model (refine_run, witness computed by absRun), so the model's theorems transfer: the send queue of every joined client is "
+                "exactly the not-yet-written tail of the messages broadcast on its topic by others since it joined (translated_queue_exact). ")
 TIE_NOTE = ("TRANSLATOR TIE: internal/deny, internal/ttlcode, internal/chanmap, the scope / required-claims decisions, the session handler and the four admin handlers of internal/access, and internal/permission are translated to Lean on every run and proved, for all states, arguments and map "
             "iteration orders, to be the store models this property's model builds on (Relay/Tie/*.lean). ")
 TIE_ASSUMPTION = "translator vocabulary (Relay/Base/GoLite.lean): int64 as unbounded Int, pointer receiver as threaded value, mutex calls are not data (lock discipline: C12)"
